@@ -238,6 +238,11 @@ class SetAlg:
                 t = t[2][0]
             elif h == "orelse" and self._is_empty(t[2]):
                 t = t[1]
+            elif h == "call" and isinstance(t[1], str) and t[1].split(".")[-1] == "product" and len(t[2]) >= 2 and not t[3]:
+                # product(A, B), as a collection, is {(a, b) for a in A for b in B}
+                self._pcount = getattr(self, "_pcount", 0) + 1
+                vs = tuple(("var", f"%pr{self._pcount}_{i}") for i in range(len(t[2])))
+                return ("comp", "set", ("tuplelit", vs), tuple((v, a, ()) for v, a in zip(vs, t[2])))
             else:
                 return t
 
@@ -250,7 +255,10 @@ class SetAlg:
         if self._is_empty(t):
             return False
         if h == "union":
-            return f_or(*[self.member(e, x) for x in t[1:]])
+            parts = []
+            for x in t[1:]:
+                parts.extend(self.union_parts(x))
+            return f_or(*[self._member_part(e, p) for p in self._merge_parts(parts)])
         if h == "inter":
             return f_and(*[self.member(e, x) for x in t[1:]])
         if h == "diff":
@@ -288,9 +296,9 @@ class SetAlg:
             # a loop that may stop early: which elements it reached is not a property of the collection alone
             return ("atom", ("in", e, self.canon_opaque(t)))
         if h == "accum" and t[1] in ("union", "concat"):
-            return f_or(*[self._member_part(e, p) for p in self.union_parts(t)])
+            return f_or(*[self._member_part(e, p) for p in self._merge_parts(self.union_parts(t))])
         if h == "bigunion":
-            return f_or(*[self._member_part(e, p) for p in self.union_parts(t)])
+            return f_or(*[self._member_part(e, p) for p in self._merge_parts(self.union_parts(t))])
         if h == "mut":
             # functional reading of effects is the evaluator's job; unknown effects stay atoms
             pass
@@ -386,8 +394,53 @@ class SetAlg:
         for p in self.union_parts(payload):
             if p[0] == "bigunion" and p[1][0] == "comp":
                 out.append(("bigunion", ("comp", "set", p[1][2], gens + tuple(p[1][3]))))
+            elif p[0] == "comp" and p[1] in ("set", "list", "gen") and gens and not (isinstance(p[2], tuple) and p[2] and p[2][0] == "%payload"):
+                # ⋃_g {f(x) for x in S} = ⋃_{g, x in S} {f(x)}
+                out.extend(self._distribute(("setlit", (p[2],)), gens + tuple(p[3])))
             else:
                 out.append(("bigunion", ("comp", "set", p, gens)))
+        return out
+
+    def _merge_parts(self, parts: list) -> list:
+        """⋃_{x∈S, c1} {f(x)} ∪ ⋃_{x∈S, c2} {f(x)} = ⋃_{x∈S, c1 ∨ c2} {f(x)}: parts that differ only in their filters are one part whose
+        filter is the disjunction (so that `if a: yield x  elif b: yield x` and `if a or b: yield x` are the same collection)."""
+        groups: dict = {}
+        originals: dict = {}
+        order = []
+        for p in parts:
+            if not (p[0] == "bigunion" and p[1][0] == "comp" and p[1][3]):
+                order.append(("raw", p))
+                continue
+            q = alpha_normalise(p)
+            comp = q[1]
+            payload = comp[2]
+            if payload[0] in ("listlit", "tuplelit") and len(payload[1]) == 1:
+                payload = ("setlit", payload[1])
+            skel = tuple((g[0], g[1]) for g in comp[3])
+            conds = [c for g in comp[3] for c in g[2]]
+            key = (payload, skel)
+            if key not in groups:
+                groups[key] = []
+                order.append(("grp", key))
+                originals[key] = p
+            groups[key].append(conds)
+        out = []
+        for kind, x in order:
+            if kind == "raw":
+                out.append(x)
+                continue
+            payload, skel = x
+            alts = groups[x]
+            if len(alts) == 1:
+                out.append(originals[x])  # nothing to merge: the part stays as it was written
+                continue
+            else:
+                ors = []
+                for a in alts:
+                    ors.append(TRUE if not a else (a[0] if len(a) == 1 else ("and",) + tuple(a)))
+                cs = () if any(o == TRUE for o in ors) else (("or",) + tuple(ors),)
+            gens = tuple((pt, it, ()) for pt, it in skel[:-1]) + ((skel[-1][0], skel[-1][1], cs),)
+            out.append(("bigunion", ("comp", "set", payload, gens)))
         return out
 
     def _gen_axioms(self, gens: tuple) -> list:
@@ -404,7 +457,7 @@ class SetAlg:
 
     def _member_part(self, e: Term, p: Term) -> Formula:
         r = self._member_part0(e, p)
-        if p[0] == "bigunion" and r is not False:
+        if p[0] == "bigunion" and r is not False and p[1][0] == "comp" and len(p[1]) > 3:
             ax = self._gen_axioms(tuple(p[1][3]))
             if ax:
                 return f_and(r, *ax)
@@ -414,6 +467,12 @@ class SetAlg:
         if p[0] != "bigunion":
             return self.member(e, p)
         comp = p[1]
+        if comp[0] != "comp":
+            # ⋃ S for a collection S of collections (chain.from_iterable(S))
+            return ("atom", ("in", e, ("bigunion", self.canon(("setof", comp)))))
+        if len(comp[3]) == 1 and comp[3][0][0][0] == "var" and self.strip(comp[2]) == comp[3][0][0] and not comp[3][0][2]:
+            # ⋃_{s ∈ S} s  is  ⋃ S
+            return ("atom", ("in", e, ("bigunion", self.canon(("setof", comp[3][0][1])))))
         q, gens = self.strip(comp[2]), tuple(comp[3])
         # one-point rule: ⋃_{..., v in T if c, ...} {v}  with v not used by later generators
         if q[0] in ("setlit", "listlit", "tuplelit") and len(q[1]) == 1:
@@ -443,7 +502,9 @@ class SetAlg:
         gens = self._hoist_conds(gens)
         if q[0] in ("listlit", "tuplelit") and len(q[1]) == 1 and q[1][0][0] != "star":
             q = ("setlit", q[1])  # a part {x} of a union, however the singleton was spelt
-        cg = tuple((pat, self.canon(("setof", it)), tuple(self._canon_cond(c) for c in conds)) for pat, it, conds in gens)
+        # all filters standing at one generator are one condition (their conjunction), whatever the number of `if`s they were written with
+        cg = tuple((pat, self.canon(("setof", it)), ((self._canon_cond(conds[0] if len(conds) == 1 else ("and",) + tuple(conds)),) if conds else ()))
+                   for pat, it, conds in gens)
         return ("atom", ("in", e, ("bigunion", ("comp", "set", self.canon(("setof", q)) if self.is_setexpr(q) else self.canon(q), cg))))
 
     def _hoist_conds(self, gens: tuple) -> tuple:
@@ -505,6 +566,12 @@ class SetAlg:
                 return m
         return None
 
+    def _setish(self, t: Term) -> bool:
+        """syntactically a set: built by set(...), a set comprehension, or set algebra"""
+        t = self.rewrite(t)
+        return t[0] in ("setof", "union", "inter", "diff") or (t[0] == "comp" and t[1] == "set") or (
+            t[0] == "call" and t[1] in ("set", "frozenset") and len(t[2]) == 1) or (t[0] == "accum" and t[1] == "union")
+
     def eq_atom(self, a: Term, b: Term) -> Formula:
         a, b = self.canon(a), self.canon(b)
         if a == b:
@@ -535,6 +602,15 @@ class SetAlg:
             z = self._len_cond(h, c[1], c[2])
             if z is not None:
                 return z
+        if h in ("lt", "le") and len(c) == 3 and self._setish(c[1]) and self._setish(c[2]):
+            # comparison of two sets: (proper) inclusion
+            return self.cond(("psubset" if h == "lt" else "subset", c[1], c[2]))
+        if h == "psubset":
+            return f_and(self.cond(("subset", c[1], c[2])), f_not(self.cond(("subset", c[2], c[1]))))
+        if h in ("eq", "ne") and len(c) == 3 and self._setish(c[1]) and self._setish(c[2]) and not (self._is_empty(self.strip(c[1])) or self._is_empty(self.strip(c[2]))):
+            # equality of two sets: inclusion both ways (so that ==, <= and < on the same sets are related)
+            both = f_and(self.cond(("subset", c[1], c[2])), self.cond(("subset", c[2], c[1])))
+            return both if h == "eq" else f_not(both)
         if h in ("eq", "ne") and self._is_boolean(c[1]) and self._is_boolean(c[2]):
             # equality of two truth values is their equivalence
             a_, b_ = self.cond(c[1]), self.cond(c[2])
@@ -599,6 +675,14 @@ class SetAlg:
             r = self._miniscope(h, c[1])
             if r is not None:
                 return r
+        if h == "any" and c[1][0] == "comp" and all(g[0][0] == "var" for g in c[1][3]) and not (
+                len(c[1][3]) == 1 and self.strip(c[1][3][0][1])[0] in ("setlit", "listlit", "tuplelit")):
+            # ∃x∈S: c(x)   <=>   {x ∈ S : c(x)} is not empty
+            gens = list(c[1][3])
+            lp, li, lc = gens[-1]
+            gens[-1] = (lp, li, tuple(lc) + (c[1][2],))
+            elt = gens[0][0] if len(gens) == 1 else ("tuplelit", tuple(g[0] for g in gens))
+            return self.cond(("truth", ("comp", "set", elt, tuple(gens))))
         if h in ("any", "all") and c[1][0] == "comp" and len(c[1][3]) == 1:
             pat, it, conds = c[1][3][0]
             lit = self.strip(it)
@@ -766,6 +850,17 @@ class SetAlg:
             for x in t[2][1:]:
                 out = ("concat", out, x)
             return self.canon(out)
+        if h == "call" and isinstance(t[1], str) and t[1].split(".")[-1] in ITER_CONSUMERS and t[2]:
+            # list(X) / tuple(X) handed to something that only iterates it is X
+            args = []
+            ch = False
+            for a in t[2]:
+                while a[0] == "call" and a[1] in ("list", "tuple", "iter") and len(a[2]) == 1 and not a[3] and a[2][0][0] not in ("comp",):
+                    a = a[2][0]
+                    ch = True
+                args.append(a)
+            if ch:
+                return self.canon_opaque(("call", t[1], tuple(args), t[3]))
         if h == "meth" and t[2] == "keys" and not t[3] and not t[4]:
             return self.canon(t[1])  # d.keys(), as a collection, is d
         if h == "accum":
@@ -869,6 +964,10 @@ def _discard_form(t: Term) -> Term:
             cs.append(kept[0] if len(kept) == 1 else ("and",) + tuple(kept))
         gens.append((pat, it, tuple(cs)))
     return ("accum", "effect", t[2], ("deep", path, "discard", t[3][3]), tuple(gens), t[5])
+
+
+ITER_CONSUMERS = {"combinations", "permutations", "product", "chain", "from_iterable", "sorted", "enumerate", "zip", "sum", "min", "max",
+                  "combinations_with_replacement", "reversed", "triplewise", "pairwise"}
 
 
 def accum_as_comp(t: Term) -> Term | None:
